@@ -1,5 +1,5 @@
 from ..gen import bundled_files, encodings, hexs
-from ..readergen import (SAFE_LINES, STRAY_LINES, gen_text, has_stray_lf, le_dangling, units_stray_lf)
+from ..readergen import SAFE_LINES, STRAY_LINES, gen_text, has_stray_lf
 from ..runner import Case, Property
 
 SPECIAL_SCALARS = [0x0, 0x9, 0xB, 0xC, 0xD, 0x1F, 0x20, 0x2F, 0x3A, 0x5B, 0x5D, 0x7F, 0x80, 0x85, 0xA0, 0xFF, 0x100, 0x10A, 0x20A, 0x7FF,
@@ -31,31 +31,27 @@ class C10(Property):
     namespace = "Rosu.C10"
     design_ref = "5.10"
     level_text = (
-        "Lean 4 theorems over the model of src/reader/{decoder,encoding,u16_iter}.rs, for every text (unbounded) and every DecodeBeatmap "
-        "implementation: a UTF-8 BOM is transparent for every file that does not itself start with a BOM (utf8_bom_transparent, including the files of 1-2 bytes which the BOM sniffing consumes: frame_short); the reader yields exactly the text's lines from UTF-8 for every text "
-        "(utf8_lines), and from UTF-16LE/BE for every text none of whose code units other than U+000A contains the byte 0x0A "
-        "(utf16_lines_transparent_partial; from_bytes with BOMs: utf16_transparent_partial); the unrestricted statement is kept as "
-        "utf16_transparent_statement and its NEGATION is proved on the witness U+010A (finding F5), FF FE 0A is proved to fail with "
-        "UnexpectedEof (finding F6); what follows a line feed is read independently of the bytes before it (lossy_line_local, lossy_first_line); "
-        "valid UTF-8 and valid UTF-16 decode to themselves for every Unicode scalar value (utf8_valid_roundtrip, utf16_valid_roundtrip), invalid "
-        "lead bytes and unpaired surrogates become exactly one U+FFFD (invalid_lead_replaced, surrogate_replaced_low/high), the odd tail byte is "
-        "dropped (odd_tail_dropped). Model tied to the code on every run by decoding the same text in four encodings with a recording "
-        "DecodeBeatmap type, invalid-UTF-8 and surrogate injections, odd tails; the property itself is evaluated on the implementation "
-        "against String::from_utf8_lossy / char::decode_utf16 applied per line and an independent framing transcription.")
+        "Lean 4 theorems over the model of src/reader/{decoder,encoding,u16_iter}.rs (as repaired: read_line ends a UTF-16 line only at a "
+        "U+000A code unit), for every text (unbounded) and every DecodeBeatmap implementation: a UTF-8 BOM is transparent for every file that "
+        "does not itself start with a BOM (utf8_bom_transparent); the reader yields exactly the text's lines from UTF-8 (utf8_lines) AND from "
+        "UTF-16LE / UTF-16BE (utf16_lines) for EVERY text, whatever bytes its code units contain, hence the same text decodes identically in "
+        "the four encodings at FULL strength (utf16_lines_transparent; from_bytes with BOMs: utf16_transparent, for every text not starting "
+        "with U+FEFF, which in UTF-8 is the BOM itself: fromBom_utf8Encode); the inputs that were cut at a stray 0x0A byte or failed before the "
+        "repair (U+010A, U+0A0A, U+4E0A, U+1040A, 41 0A 0A 00, FF FE 0A: former findings F5 3a3fd38, F6 a74dea1) are kept as examples that now "
+        "agree; what follows a line feed is read independently of the bytes before it (lossy_line_local, lossy_first_line); valid UTF-8 and "
+        "valid UTF-16 decode to themselves for every Unicode scalar value (utf8_valid_roundtrip, utf16_valid_roundtrip), invalid lead bytes "
+        "and unpaired surrogates become exactly one U+FFFD (invalid_lead_replaced, surrogate_replaced), the odd tail byte is dropped "
+        "(odd_tail_dropped). Model tied to the code on every run by decoding the same text in four encodings with a recording DecodeBeatmap "
+        "type, invalid-UTF-8 and surrogate injections, odd tails; the property itself is evaluated on the implementation against "
+        "String::from_utf8_lossy / char::decode_utf16 applied per line and an independent framing transcription.")
     technique = "Lean 4 proof (encoders vs decoders, structural line splitting) + differential correspondence over encodings and injections"
     required_theorems = [
-        "utf8_bom_transparent", "utf8_bom_transparent_ge3", "utf8_bom_transparent_short", "short_files_lose_content", "frame_short",
-        "utf8_lines", "utf16be_lines_partial", "utf16le_lines_partial", "utf16_lines_transparent_partial",
-        "utf16_transparent_partial", "utf16_transparent_false", "utf16le_dangling_lf_errors", "lossy_line_local", "lossy_first_line",
+        "utf8_bom_transparent", "utf8_lines", "utf16_lines", "utf16_lines_transparent", "utf16_transparent_of_noBom", "utf16_transparent",
+        "fromBom_utf8Encode", "lossy_line_local", "lossy_first_line",
         "utf8_valid_roundtrip", "utf16_valid_roundtrip", "ascii_passthrough", "invalid_lead_replaced", "lossy_examples",
         "surrogate_replaced", "surrogate_replaced_low", "surrogate_replaced_high", "surrogate_pair_decoded", "odd_tail_dropped",
     ]
     partial_theorems = {
-        "utf16_transparent_partial": "needs noStrayLF (no UTF-16 code unit other than U+000A contains the byte 0x0A): the unrestricted "
-                                     "utf16_transparent_statement is FALSE of the code (utf16_transparent_false, finding F5; "
-                                     "utf16le_dangling_lf_errors, finding F6); also needs a UTF-8 form of >= 3 bytes not starting with U+FEFF",
-        "utf16_lines_transparent_partial": "same noStrayLF hypothesis, at the level of the lines the reader yields",
-        "utf16be_lines_partial": "noStrayLF", "utf16le_lines_partial": "noStrayLF",
         "lossy_examples": "the maximal-subpart rule is proved on the documented cases and for single invalid lead bytes "
                           "(invalid_lead_replaced), not as equality with a separately stated general specification; the general equality with "
                           "String::from_utf8_lossy is checked differentially",
@@ -97,6 +93,15 @@ class C10(Property):
                   b"\xff\xfe[\x00G\x00e\x00n\x00e\x00r\x00a\x00l\x00]\x00\n\x00A\x00\n", b"\xfe\xff\x00[\x00]\x00\n\x00",
                   b"\xef\xbb\xbf\xef\xbb\xbf[General]\nA", b"\xef\xbb\xbf", b"\xef\xbb"]:
             reftext(d, "corner-bytes")
+
+        # pins of the repaired read_line (former F5/F6): 0x0A bytes inside other code units, at even and odd indices
+        for d in [b"\xff\xfe\x41\x0a\x0a\x00", b"\xff\xfe[\x00G\x00]\x00\n\x00\x41\x0a\x0a\x00B\x00", b"\xfe\xff\x0a\x41\x00\x0a",
+                  b"\xfe\xff\x00[\x00G\x00]\x00\n\x0a\x41\x00\x0a\x00B", b"\xff\xfe\x0a\x0a\x0a\x00", b"\xfe\xff\x0a\x0a\x00\x0a",
+                  b"\xff\xfe\x0a\x01\x0a\x00", b"\xfe\xff\x01\x0a\x00\x0a", b"\xff\xfe\x0a", b"\xff\xfe\x41\x00\x0a", b"\xff\xfe\x0a\x41",
+                  b"\xff\xfe\x41\x0a", b"\xfe\xff\x00\x0a\x0a", b"\xfe\xff\x0a", b"\xfe\xff\x0a\x00\x0a", b"\xff\xfe\x00\x0a\x00\x0a\x00"]:
+            reftext(d, "pin-read_line")
+        for t in ["[General]\nਊ: ਊ\nB: c", "[General]\nA: ੁ\n", "[General]\n上上\n上", "[Metadata]\nTitle:𐐊𐐊\nArtist:Ċ", "ਊ\n[General]\nਊ"]:
+            enc4(t, "pin-read_line")
 
         # the same text in four encodings
         for _ in range(1200 if quick else 30000):
@@ -169,29 +174,7 @@ class C10(Property):
         return "ok v=" in impl_out and " n=0" not in impl_out.split(" | ")[0]
 
     def known(self, case, out, findings):
-        ids = {f["id"] for f in findings}
-        if "explained=unexplained" in out:
-            return None
-        toks = case.line.split()
-        data = b"" if toks[1] == "-" else bytes.fromhex(toks[1])
-        stray = "explained=utf16-stray-lf" in out
-        dangling = "explained=utf16le-dangling-lf" in out
-        if toks[0] == "enc4":
-            text = data.decode("utf-8")
-            segs = out[len("FAIL encodings-disagree "):].split(" ; ")
-            if not all(s.startswith(("utf16le:", "utf16be:")) for s in segs):
-                return None
-            encs = encodings(text)
-            if stray and "F5" in ids and has_stray_lf(text) and units_stray_lf(encs["utf16le"]):
-                return "F5"
-            if dangling and not stray and "F6" in ids and le_dangling(encs["utf16le"]):
-                return "F6"
-            return None
-        if toks[0] == "reftext":
-            if stray and "F5" in ids and units_stray_lf(data):
-                return "F5"
-            if dangling and "F6" in ids and le_dangling(data):
-                return "F6"
+        # F5 (3a3fd38) and F6 (a74dea1) are fixed: a fixed entry suppresses nothing — if a failure returns it is a violation.
         return None
 
 
